@@ -228,9 +228,9 @@ def small_programs(quick):
     out.append(("mask2_desc", b.build(), 0, 64, 256))
     b = J.Builder(N=3 if quick else 4); J.t_indep(b, "T", ["step2"], flowkind="new"); J.t_indep(b, "U", ["desc"], flowkind="rwread")
     out.append(("startup_chunk1", b.build(), 0, 1, 1))
-    b = J.Builder(N=4 if quick else 6); J.t_indep(b, "T", ["asc"])
-    out.append(("startup_chunk2", b.build(), 0, 2, 2))
     if not quick:
+        b = J.Builder(N=6); J.t_indep(b, "T", ["asc"])
+        out.append(("startup_chunk2", b.build(), 0, 2, 2))
         b = J.Builder(N=3, M=2); J.t_bcast(b, "P", "Q", "desc", "rect_desc", gather="R", raw=False)
         out.append(("bcast_desc", b.build(), 0, 64, 256))
         b = J.Builder(N=4); J.t_split(b, False)
@@ -490,12 +490,12 @@ def corruption_selftest(ctx, spec_dir, module, cfg, execution, corrupt, what):
     bad = corrupt(json.loads(json.dumps(execution)))
     if bad is None:
         return
-    ok = tracecheck.validate_executions(ctx.spec(spec_dir), module, cfg, [execution], confirm=False, max_failures=1)
+    # (the original execution was accepted as part of the validated batch)
     rej = tracecheck.validate_executions(ctx.spec(spec_dir), module, cfg, [bad], confirm=False, max_failures=1)
-    ctx.extra["trace_tlc_runs"] = ctx.extra.get("trace_tlc_runs", 0) + ok.tlc_runs + rej.tlc_runs
-    if ok.failures or not rej.failures:
-        raise tlc.TLCError("sensitivity self-test of %s/%s failed (%s): original accepted=%s, corrupted rejected=%s" % (
-            module, cfg, what, not ok.failures, bool(rej.failures)))
+    ctx.extra["trace_tlc_runs"] = ctx.extra.get("trace_tlc_runs", 0) + rej.tlc_runs
+    if not rej.failures:
+        raise tlc.TLCError("sensitivity self-test of %s/%s failed (%s): the corrupted execution was accepted" % (
+            module, cfg, what))
     ctx.extra.setdefault("corruption_selftests", []).append(
         {"what": what, "rejected_at": rej.failures[0].describe()["matched_prefix"], "of": len(bad)})
 
